@@ -7,12 +7,13 @@ def mk(kind, lens, mask, quick, gt=False, timeout=None):
     return Query(name, SRC, 'h_partition' if kind == 'part' else 'h_selection',
                  'multisequence_%s: %d sequences of lengths %s, sorted keys in 0..%d (symbolic), every rank 0..%d (symbolic), comparator %s' % ('partition' if kind == 'part' else 'selection', m, lens, mask, sum(lens), '>' if gt else '<'),
                  defs=['M=%d' % m, 'L0=%d' % l[0], 'L1=%d' % l[1], 'L2=%d' % l[2], 'KEYMASK=%d' % mask] + (['CMP_GREATER'] if gt else []), ll2c=['--alloc-cap', '64', '--introsort-small'],
-                 tiers=('quick', 'thorough') if quick else ('thorough',), timeout=timeout or (1800 if quick else 7200), unwind=4, max_unwind=64, weight=sum(lens) * m)
+                 tiers=('quick', 'thorough') if quick else ('thorough',), timeout=timeout or (1800 if quick else 7200), unwind=4, max_unwind=64, weight=sum(lens) * m,
+                 witness=not (quick and sum(lens) >= 4))   # the 4-element quick query runs without its vacuity twin (4 more minutes; the twins of the other lengths reach the same REACH point of the same harness) to stay inside the 15 min of a quick run
 
 def queries():
     qs = []
     for kind in ('part', 'sel'):
-        for lens, quick in (((1,), True), ((3,), True), ((1, 1), True), ((2, 1), True), ((2, 2), True), ((3, 1), True), ((1, 3), False), ((1, 1, 2), kind == 'part'), ((1, 4), kind == 'part'), ((3, 3), False), ((4, 2), False), ((1, 1, 1), True), ((2, 1, 2), False), ((2, 2, 2), False), ((4, 4), False), ((5, 3), False), ((7, 1), False)):
+        for lens, quick in (((1,), True), ((3,), False), ((1, 1), True), ((2, 1), True), ((2, 2), False), ((3, 1), False), ((1, 3), False), ((1, 1, 2), kind == 'part'), ((1, 4), False), ((3, 3), False), ((4, 2), False), ((1, 1, 1), True), ((2, 1, 2), False), ((2, 2, 2), False), ((4, 4), False), ((5, 3), False), ((7, 1), False)):
             qs.append(mk(kind, lens, 3, quick))
         qs.append(mk(kind, (2, 2), 255, False)); qs.append(mk(kind, (2, 2), 3, False, gt=True))
     return qs
